@@ -137,6 +137,7 @@ def validate_trace(module, trace, wd, pid, tag, max_rej=12):
         m = re.search(r"(\d+) states generated", out)
         if m:
             res["states"] += int(m.group(1))
+        res.setdefault("drift", []).extend(re.findall(r'^<<"DRIFT", (.*)>>$', out, re.M))
         um = re.search(r'<<"UNMATCHED", (\d+), "(.*)">>', out)
         if "Model checking completed. No error has been found" in out and not um:
             res["accepted"] += len(pending)
@@ -273,6 +274,10 @@ def record_and_validate(pid, wd, module, jobs, verdict, par=6):
             agg["rejected"] += len(r["rejections"])
             if len(agg["samples"]) < 3:
                 agg["samples"].append({"trace": tag, "first_events": sample[1:4]})
+            dr = r.get("drift", [])
+            agg["drift"] = agg.get("drift", 0) + len(dr)
+            for d in sorted(set(dr))[:3]:
+                log(f"DRIFT property={pid} storage operations of a call outside the envelope of spec/StoreOrder.tla: {d[:200]}")
             for rej in r["rejections"]:
                 verdict.reject(signature(rej["event"]), rej["replay"],
                                json.dumps(rej["event"])[:300])
